@@ -364,7 +364,7 @@ fn check_compiled(run: &Run, m: &Mapping, full_bmp: bool, font_bytes: &[u8], l: 
     }
 
     // ---- lookups -------------------------------------------------------
-    let mut report = |api: &str, c: u32, exp: Option<u16>, got: Option<GlyphId>| {
+    let report = |api: &str, c: u32, exp: Option<u16>, got: Option<GlyphId>| {
         run.violation(
             &lookup_identity(api, exp, c),
             &format!(
@@ -542,9 +542,10 @@ fn point_family(run: &Run) {
             (0..n).map(move |g| (i, g))
         })
         .collect();
-    let locals: Vec<Local> = tasks
-        .par_iter()
-        .map(|&(si, g0)| {
+    // subsets of size <= 1 are run first and sequentially, so that when a defect is visible on a
+    // one-point mapping the replay file written for its identity is that minimal case
+    let split = tasks.iter().position(|&(si, _)| subsets[si].len() > 1).unwrap_or(tasks.len());
+    let work = |&(si, g0): &(usize, usize)| {
             let s = &subsets[si];
             let mut l = Local::new();
             let full = s.len() <= kb;
@@ -576,8 +577,9 @@ fn point_family(run: &Run) {
                 }
             }
             l
-        })
-        .collect();
+        };
+    let mut locals: Vec<Local> = tasks[..split].iter().map(work).collect();
+    locals.extend(tasks[split..].par_iter().map(work).collect::<Vec<_>>());
     for l in locals {
         l.merge(run, "F1");
     }
@@ -1027,12 +1029,7 @@ fn uvs_family(run: &Run) {
             sel_lists.push(vec![*a, *b]);
         }
     }
-    // quick: the second selector's body ranges over every 3rd body (fixed stride) — reported as a bound
-    let stride2 = run.tier.pick(3usize, 1usize);
-    run.bound("F4.second_selector_body_stride", json!(stride2));
-    if stride2 != 1 {
-        run.cap_hit("F4 quick: second selector body enumerated with stride 3 (thorough: all pairs)");
-    }
+    let stride2 = 1usize;
     let mut tasks: Vec<(usize, usize)> = vec![];
     for (si, s) in sel_lists.iter().enumerate() {
         if s.is_empty() {
